@@ -183,19 +183,92 @@ def rand_exotic_dag(rng, size, valid=True, max_merkle=3):
     return dag
 
 
-def fix_merkle_fields(dag):
-    """Rewrite Merkle proof/update data so that stored hashes/depths are those of the children."""
+def ref_hd(dag):
+    """Independent Python reference of the TON cell hash/depth rules (DataCell.cpp), used by the GENERATORS only, so
+    that case generation does not depend on the library under test.  Returns per node (mask, hashes[0..3], depths[0..3])
+    where index = level; None for a node the rules do not cover (malformed exotic data)."""
     out = []
-    objs = []
     for ty, bits, refs in dag:
-        if ty == 3:
-            c = objs[refs[0]]
-            node = mproof_node(c.get_hash(0), c.get_depth(0), refs[0])
+        kids = [out[r] for r in refs]
+        if any(k is None for k in kids):
+            out.append(None)
+            continue
+        if ty == -1:
+            mask = 0
+            for k in kids:
+                mask |= k[0]
+        elif ty == 1:
+            if len(bits) < 16:
+                out.append(None)
+                continue
+            mask = int(bits[8:16], 2)
+            if not 1 <= mask <= 7 or len(bits) != 16 + 272 * bin(mask).count("1") or refs:
+                out.append(None)
+                continue
+        elif ty == 2:
+            mask = 0
+        elif ty == 3:
+            if len(refs) != 1:
+                out.append(None)
+                continue
+            mask = kids[0][0] >> 1
         elif ty == 4:
-            a, b = objs[refs[0]], objs[refs[1]]
-            node = mupdate_node(a.get_hash(0), b.get_hash(0), a.get_depth(0), b.get_depth(0), refs[0], refs[1])
+            if len(refs) != 2:
+                out.append(None)
+                continue
+            mask = (kids[0][0] | kids[1][0]) >> 1
+        else:
+            out.append(None)
+            continue
+        nb = len(bits)
+        data = bits + ("1" + "0" * (7 - nb % 8) if nb % 8 else "")
+        data = bytes(int(data[i:i + 8], 2) for i in range(0, len(data), 8))
+        d2 = nb // 8 + (nb + 7) // 8
+        merkle = 1 if ty in (3, 4) else 0
+        hs, ds = [None] * 4, [None] * 4
+        prev = None
+        pop = bin(mask).count("1")
+        for lvl in range(4):
+            significant = lvl == 0 or (mask >> (lvl - 1)) & 1
+            if not significant:
+                hs[lvl], ds[lvl] = hs[lvl - 1], ds[lvl - 1]
+                continue
+            hidx = bin(mask & ((1 << lvl) - 1)).count("1")
+            if ty == 1 and hidx != pop:
+                # a pruned branch below its own level: the stored hash / depth
+                hs[lvl] = data[2 + 32 * hidx: 2 + 32 * (hidx + 1)]
+                ds[lvl] = int.from_bytes(data[2 + 32 * pop + 2 * hidx: 2 + 32 * pop + 2 * hidx + 2], "big")
+                continue
+            lmask = mask & ((1 << lvl) - 1)
+            d1 = len(refs) + (8 if ty != -1 else 0) + 32 * lmask
+            body = bytes([d1, d2]) + (data if (prev is None or ty == 1) else prev)
+            depth = 0
+            for k in kids:
+                kd = k[2][min(3, lvl + merkle)]
+                body += kd.to_bytes(2, "big")
+                depth = max(depth, kd + 1)
+            for k in kids:
+                body += k[1][min(3, lvl + merkle)]
+            hs[lvl] = hashlib.sha256(body).digest()
+            ds[lvl] = depth
+            prev = hs[lvl]
+        out.append((mask, hs, ds))
+    return out
+
+
+def fix_merkle_fields(dag):
+    """Rewrite Merkle proof/update data so that stored hashes/depths are those of the children (computed by the
+    independent reference ref_hd, not by the library)."""
+    out = []
+    for ty, bits, refs in dag:
+        info = ref_hd(out)
+        if ty == 3 and info[refs[0]] is not None:
+            c = info[refs[0]]
+            node = mproof_node(c[1][0], c[2][0], refs[0])
+        elif ty == 4 and info[refs[0]] is not None and info[refs[1]] is not None:
+            a, b = info[refs[0]], info[refs[1]]
+            node = mupdate_node(a[1][0], b[1][0], a[2][0], b[2][0], refs[0], refs[1])
         else:
             node = (ty, bits, refs)
         out.append(node)
-        objs.append(Cell(tvm_bits(node[1]), [objs[r] for r in node[2]], node[0]))
     return out
